@@ -107,18 +107,9 @@ def ctxAfter (edges : Edges α) (dims : List Nat) (c0 : Slots) (flow : List (Val
   | none => c0
   | some v => (C14.getDataContext names v).2
 
-/-- the documented formats of edges: flat for one dimension, nested for two or more
-(`[[0, 1, 2]]` is neither, see `mkHistogram_nested1`) -/
-def NotNested1 (e : Edges α) : Prop := ∀ axes, e = .nested axes → axes.length ≠ 1
-
 /-- the generators of the cells, as `compute` sees them -/
 def cellTraces (s : SIB α σ) : NArr (Trace ρ (Exc ε)) := NArr.map (fun c => (an.compute c).liftInner) s.bins
 
-
-/-- executable `NotNested1` -/
-def notNested1B : Edges α → Bool
-  | .flat _ => true
-  | .nested axes => axes.length != 1
 
 /-- executable `IsCellEdges` -/
 def isCellEdgesB : List (List α) → List Nat → List (α × α) → Bool
